@@ -28,35 +28,58 @@ def gate_instances(n):
     return g
 
 
-def build_circuit(n, gates):
-    from qiskit import QuantumCircuit
-    qc = QuantumCircuit(n)
+LAYOUTS = ("QuantumCircuit(n)", "one named quantum register", "two quantum registers", "QuantumCircuit(n, n): with classical bits",
+           "two quantum registers + a classical register", "three quantum registers (sizes 1, n-2, 1) + classical register")
+
+
+def build_circuit(n, gates, layout=0):
+    """the same gate list on different register structures: the register layout of a circuit is part of the input"""
+    from qiskit import QuantumCircuit, QuantumRegister, ClassicalRegister
+    if layout == 0:
+        qc = QuantumCircuit(n)
+    elif layout == 1:
+        qc = QuantumCircuit(QuantumRegister(n, "data"))
+    elif layout == 2:
+        qc = QuantumCircuit(QuantumRegister((n + 1) // 2, "a"), QuantumRegister(n // 2, "b"))
+    elif layout == 3:
+        qc = QuantumCircuit(n, n)
+    elif layout == 4:
+        qc = QuantumCircuit(QuantumRegister(n // 2, "a"), QuantumRegister(n - n // 2, "b"), ClassicalRegister(2, "c"))
+    else:
+        regs = [QuantumRegister(1, "x"), QuantumRegister(n - 2, "y"), QuantumRegister(1, "z")] if n >= 3 else [QuantumRegister(1, "x"), QuantumRegister(1, "z")]
+        qc = QuantumCircuit(*regs, ClassicalRegister(1, "c"))
     for nm, q in gates:
         getattr(qc, nm)(*q)
     return qc
 
 
 def eval_circuit(job):
-    n, conn, gates = job
+    n, conn, gates = job[:3]
+    layout = job[3] if len(job) > 3 else 0
     from htstabilizer.stabilizer_circuits import compress_preparation_circuit
     from htstabilizer.stabilizer import Stabilizer
     import htstabilizer.circuit_lookup as cl
     text = " ".join(f"{nm}{','.join(map(str, q))}" for nm, q in gates)
-    rp = {"n": n, "connectivity": conn, "paulis": None, "circuit": text,
-          "python": f"compress_preparation_circuit(<circuit {text[:80]}>, {conn!r})"}
-    key = f"{n}:{conn}:{text}"
+    rp = {"n": n, "connectivity": conn, "paulis": None, "circuit": text, "register_layout": LAYOUTS[layout], "job": [n, conn, [[nm, list(q)] for nm, q in gates], layout],
+          "python": f"compress_preparation_circuit(<circuit {text[:80]} on {LAYOUTS[layout]}>, {conn!r})"}
+    key = f"{n}:{conn}:{text}" + (f":layout{layout}" if layout else "")
+    if layout:
+        text = text + f"  [on {LAYOUTS[layout]}]"
     out = []
 
     def rec(fam, ok, what):
         out.append((fam, bool(ok), f"{fam}:{key}", what, rp))
 
-    qc = build_circuit(n, gates)
+    qc = build_circuit(n, gates, layout)
     before = adapt.gates_of(qc)
     want = P.canon(n, P.state_generators(n, gates))
     # Q1 / C14: the Stabilizer object built from the circuit generates the signed group of circuit|0>
-    st = Stabilizer(qc)
-    rec("C14.circuit_format.signed_group", P.canon(n, adapt.gens_of_stabilizer(st)) == want,
-        f"Stabilizer(circuit) for [{text[:60]}] does not generate the signed stabilizer group of circuit|0> (Q1)")
+    try:
+        st = Stabilizer(qc)
+        rec("C14.circuit_format.signed_group", P.canon(n, adapt.gens_of_stabilizer(st)) == want,
+            f"Stabilizer(circuit) for [{text[:60]}] does not generate the signed stabilizer group of circuit|0> (Q1)")
+    except Exception as e:
+        rec("C14.circuit_format.signed_group", False, f"Stabilizer(circuit) for [{text[:60]}] raised {type(e).__name__}: {e}")
     try:
         res = compress_preparation_circuit(qc, conn)
         og = adapt.gates_of(res)
@@ -90,6 +113,11 @@ def circuit_jobs(ctx, small=False):
             jobs.append((n, conn, []))
             jobs += [(n, conn, [g]) for g in gi]
             jobs += [(n, conn, [g1, g2]) for g1 in gi for g2 in gi]
+            # every register layout: all circuits of at most one gate, and the two-gate circuits with a two-qubit gate first
+            for lay in range(1, len(LAYOUTS)):
+                jobs.append((n, conn, [], lay))
+                jobs += [(n, conn, [g], lay) for g in gi]
+                jobs += [(n, conn, [g1, g2], lay) for g1 in gi if len(g1[1]) == 2 for g2 in gi if len(g2[1]) == 1 and g2[0] in ("h", "s")]
     # circuits that already respect the coupling graph but waste gates (routing with SWAPs, repeated CX/CZ): the natural inputs of a compressor
     if not small:
         for n, conn in docs.ADVERTISED:
@@ -106,7 +134,7 @@ def circuit_jobs(ctx, small=False):
                         if rnd.random() < 0.5:
                             a, b = b, a
                         gates.append((rnd.choice(["cx", "cz", "swap", "swap"]), [a, b]))
-                jobs.append((n, conn, gates))
+                jobs.append((n, conn, gates, t % len(LAYOUTS)))
     per = (2 if small else 8) if ctx.quick else (10 if small else 80)
     for n, conn in docs.ADVERTISED:
         gi = gate_instances(n)
@@ -118,7 +146,7 @@ def circuit_jobs(ctx, small=False):
                 gates.append(g)
                 if rnd.random() < 0.15:
                     gates.append(g)            # redundant pairs
-            jobs.append((n, conn, gates))
+            jobs.append((n, conn, gates, t % len(LAYOUTS)))
     return jobs
 
 
@@ -156,6 +184,7 @@ def run(ctx: core.Ctx):
     jobs = circuit_jobs(ctx)
     results = core.pmap(eval_circuit, jobs)
     n_small = sum(1 for j in jobs if len(j[2]) <= 2 and j[0] <= 3)
+    ctx.extra["register_layouts"] = list(LAYOUTS)
     for res, job in zip(results, jobs):
         exhaustive_part = len(job[2]) <= 2 and job[0] <= 3
         for fam_name, ok, key, what, rp in res:
@@ -181,11 +210,15 @@ def run(ctx: core.Ctx):
 
 def replay(data):
     inp = data["input"]
-    gates = []
-    for tok in (inp.get("circuit") or "").split():
-        nm = tok.rstrip("0123456789,")
-        gates.append((nm, [int(x) for x in tok[len(nm):].split(",")]))
-    res = eval_circuit((inp["n"], inp["connectivity"], gates))
+    if "job" in inp:
+        n, conn, gl, layout = inp["job"]
+        res = eval_circuit((n, conn, [(nm, list(q)) for nm, q in gl], layout))
+    else:
+        gates = []
+        for tok in (inp.get("circuit") or "").split():
+            nm = tok.rstrip("0123456789,")
+            gates.append((nm, [int(x) for x in tok[len(nm):].split(",")]))
+        res = eval_circuit((inp["n"], inp["connectivity"], gates))
     bad = [r for r in res if not r[1]]
     for r in bad:
         print("REPRODUCED:", r[0], r[3])
